@@ -54,8 +54,15 @@ def run(F, R):
     have = dict((m[0], m[1]) for m in impl["methods"])
     want = [m[0] for m in tr["methods"]]
     R.floor("R09.1", "Visitor trait methods", len(want), 25)
+    used = set()
+    for i2 in F.impls_of(VIS + r"::Visitor$"):
+        if "validation::rules::" in i2["self"] or "validation::visitors::" in i2["self"]:
+            used |= {mm[0] for mm in i2["methods"]}
     for m in want:
         if m == "mode":
+            continue
+        if m not in have and m not in used:
+            R.ok("R09.1", "VisitorCons::%s:unused-callback" % m, "%s:%s" % (impl["file"], impl["line"]), "not forwarded, but no composed rule or calculator overrides it")
             continue
         if m not in have:
             R.violation("R09.1", "VisitorCons::%s:not-forwarded" % m, "%s:%s" % (impl["file"], impl["line"]),
